@@ -245,12 +245,17 @@ def run_hostile(ctx):
     rng = ctx.rng
     F = GG.Factory(rng)
     for i in range(ctx.n(3200, 60000)):
-        case = F.any()
+        case = F.any() if i % 4 else F.random_config()      # every fourth case: several options drawn together from the documented domains
         try:
             g = case['make'](debug=False)
         except Exception as exc:  # noqa
+            if case.get('random_config'):
+                ctx.count('random_option_combinations_rejected')
+                continue
             ctx.inconclusive_because('harness: generated configuration rejected: %r' % (exc,))
             return
+        if case.get('random_config'):
+            ctx.count('random_option_combinations')
         tap = InnerTap(g)
         for j in range(ctx.pick(7, 12)):
             inp = hostile_input(rng, case)
